@@ -204,8 +204,22 @@ class XExprEvaluator(ModelVisitor):
             self.is_x = True
             self.val = None
         else:
-            self.is_x = False
-            field.accept(self)
+            # The value is that of the selected element, provided 
+            # the index itself is known
+            s.rhs.accept(self)
+            if not self.is_x:
+                idx = int(self.val)
+                elem = field.field_l[idx] if 0 <= idx < len(field.field_l) else None
+                if isinstance(elem, (FieldScalarModel, EnumFieldModel)):
+                    elem.accept(self)
+                else:
+                    self.is_x = True
+                    self.val = None
+            
+    def visit_expr_indexed_fieldref(self, e):
+        # The target is only known once the reference has been resolved
+        self.is_x = True
+        self.val = None
             
     def visit_expr_in(self, e):
         e.lhs.accept(self)
